@@ -714,6 +714,77 @@ func advisoryGet(in ssa.Instruction) bool {
 	return true
 }
 
+// advisoryCall: a call of a first-party helper that needs a read lock on its key argument, made without the lock, is an
+// existence/type probe like advisoryGet when (a) only bits leave the call -- every non-boolean result is unused -- and
+// (b) the helper (and what it calls) only looks the key up and tests the type of what it finds: it never touches the
+// inside of a stored container and writes nothing.
+func (la *lockAnalysis) advisoryCall(in ssa.Instruction) bool {
+	call, ok := in.(*ssa.Call)
+	if !ok {
+		return false
+	}
+	cf := callee(call)
+	if cf == nil || !firstParty(cf) {
+		return false
+	}
+	res := cf.Signature.Results()
+	if res.Len() == 0 {
+		return false
+	}
+	if res.Len() == 1 {
+		if !isBoolType(res.At(0).Type()) {
+			return false
+		}
+	} else if call.Referrers() != nil {
+		for _, r := range *call.Referrers() {
+			ex, ok := r.(*ssa.Extract)
+			if !ok {
+				if _, dbg := r.(*ssa.DebugRef); dbg {
+					continue
+				}
+				return false
+			}
+			if isBoolType(ex.Type()) {
+				continue
+			}
+			if ex.Referrers() != nil {
+				for _, u := range *ex.Referrers() {
+					if _, dbg := u.(*ssa.DebugRef); !dbg {
+						return false
+					}
+				}
+			}
+		}
+	}
+	var probeOnly func(fn *ssa.Function, depth int) bool
+	probeOnly = func(fn *ssa.Function, depth int) bool {
+		if depth > 3 {
+			return false
+		}
+		for _, s := range la.sites(fn) {
+			switch s.Kind {
+			case "keyspace":
+				if s.Write {
+					return false
+				}
+			case "call":
+				if s.Write {
+					return false
+				}
+				if c2, ok := s.In.(*ssa.Call); ok {
+					if f2 := callee(c2); f2 != nil && f2 != fn && !probeOnly(f2, depth+1) {
+						return false
+					}
+				}
+			default:
+				return false
+			}
+		}
+		return true
+	}
+	return probeOnly(cf, 0)
+}
+
 func isBoolType(t types.Type) bool {
 	b, ok := t.Underlying().(*types.Basic)
 	return ok && b.Kind() == types.Bool
@@ -743,6 +814,9 @@ func (la *lockAnalysis) run(rule string) {
 				if s.Kind == "keyspace" && !s.Write && advisoryGet(s.In) {
 					continue // an existence/type probe: no requirement on the callers (reported as advisory below)
 				}
+				if s.Kind == "call" && !s.Write && la.advisoryCall(s.In) {
+					continue
+				}
 				if pi := paramIndex(fn, s.Key); pi >= 0 {
 					what := "R"
 					if s.Write {
@@ -770,6 +844,11 @@ func (la *lockAnalysis) run(rule string) {
 			ok, detail := la.check(s)
 			if !ok && s.Kind == "keyspace" && !s.Write && advisoryGet(s.In) {
 				c.Add(rule, fnName(fn), s.Construct, s.In.Pos(), true, "advisory pre-check: result used only in a type/existence test (the read itself is atomic inside ConcurrentMap)")
+				nsites++
+				continue
+			}
+			if !ok && s.Kind == "call" && !s.Write && la.advisoryCall(s.In) {
+				c.Add(rule, fnName(fn), s.Construct, s.In.Pos(), true, "advisory pre-check through a helper: only existence/type bits leave the call and the helper never touches the inside of a stored value")
 				nsites++
 				continue
 			}
